@@ -31,6 +31,11 @@ pub fn dump_crate<'tcx>(tcx: TyCtxt<'tcx>) -> J {
             DefKind::Fn | DefKind::AssocFn | DefKind::Closure => {
                 if tcx.is_mir_available(did) {
                     bodies.push(dump_body(tcx, ldid));
+                    // promoted constants (`&Ordering::Equal`, `&0`, ..) are separate MIR bodies: dump them so that
+                    // the analysis can see the value a promoted operand stands for
+                    for (pi, pbody) in tcx.promoted_mir(did).iter_enumerated() {
+                        bodies.push(dump_promoted(tcx, ldid, pi.as_usize(), pbody));
+                    }
                 } else {
                     fns_without_body.push(J::s(def_key(tcx, did)));
                 }
@@ -322,16 +327,8 @@ struct Cx<'a, 'tcx> {
     env: TypingEnv<'tcx>,
 }
 
-fn dump_body<'tcx>(tcx: TyCtxt<'tcx>, ldid: LocalDefId) -> J {
-    let did = ldid.to_def_id();
-    let body = tcx.optimized_mir(did);
-    let cx = Cx {
-        tcx,
-        body,
-        def: ldid,
-        env: TypingEnv::post_analysis(tcx, did),
-    };
-    let kind = tcx.def_kind(did);
+fn dump_code<'a, 'tcx>(tcx: TyCtxt<'tcx>, cx: &Cx<'a, 'tcx>) -> (Vec<J>, Vec<J>, Vec<J>) {
+    let body = cx.body;
     let mut locals = Vec::new();
     for (_l, decl) in body.local_decls.iter_enumerated() {
         locals.push(J::obj(vec![
@@ -385,6 +382,49 @@ fn dump_body<'tcx>(tcx: TyCtxt<'tcx>, ldid: LocalDefId) -> J {
             ("term", cx.terminator(term)),
         ]));
     }
+
+    (locals, dbg, blocks)
+}
+
+fn dump_promoted<'tcx>(tcx: TyCtxt<'tcx>, owner: LocalDefId, idx: usize, body: &mir::Body<'tcx>) -> J {
+    let did = owner.to_def_id();
+    let cx = Cx {
+        tcx,
+        body,
+        def: owner,
+        env: TypingEnv::post_analysis(tcx, did),
+    };
+    let (locals, dbg, blocks) = dump_code(tcx, &cx);
+    J::obj(vec![
+        ("key", J::s(format!("{}::promoted[{}]", def_key(tcx, did), idx))),
+        ("uid", J::s(format!("{}::{{promoted#{}}}", uid(tcx, did), idx))),
+        ("kind", J::s("Promoted")),
+        ("name", J::Null),
+        ("vis", J::Null),
+        ("parent", J::s(uid(tcx, did))),
+        ("impl_self", J::Null),
+        ("impl_trait", J::Null),
+        ("derived", J::Bool(false)),
+        ("captures", J::Arr(Vec::new())),
+        ("arg_count", J::Int(0)),
+        ("span", span_json(tcx, body.span)),
+        ("locals", J::Arr(locals)),
+        ("debug", J::Arr(dbg)),
+        ("blocks", J::Arr(blocks)),
+    ])
+}
+
+fn dump_body<'tcx>(tcx: TyCtxt<'tcx>, ldid: LocalDefId) -> J {
+    let did = ldid.to_def_id();
+    let body = tcx.optimized_mir(did);
+    let cx = Cx {
+        tcx,
+        body,
+        def: ldid,
+        env: TypingEnv::post_analysis(tcx, did),
+    };
+    let kind = tcx.def_kind(did);
+    let (locals, dbg, blocks) = dump_code(tcx, &cx);
 
     // enclosing impl / trait info
     let mut impl_self = J::Null;
@@ -553,6 +593,9 @@ impl<'a, 'tcx> Cx<'a, 'tcx> {
             fields.push(("s", J::s(s)));
             if let Const::Unevaluated(u, _) = c.const_ {
                 fields.push(("uneval", J::s(path_str(tcx, u.def))));
+                if let Some(pi) = u.promoted {
+                    fields.push(("promoted", J::s(format!("{}::{{promoted#{}}}", uid(tcx, u.def), pi.as_usize()))));
+                }
             }
         }
         J::obj(fields)
